@@ -66,7 +66,7 @@ func c16Check(res string, which string, pageURL *nurl.URL, hrefs []string) {
 }
 
 var c16Heads = []string{"", "/", "?", "#", "http://h.t/", "HTTP://H.T/", "http://x.t/", "javascript:", "mailto:", "//h.t/", "//x.t/", "http://h.t.x.t/", "http://h.t:8080/", "http://h.t@x.t/", "story/"}
-var c16Texts = []string{"next", "Next page", "3", "prev", "Previous", "1"}
+var c16Texts = []string{"next", "3", "prev", "Next page", "Previous", "1"}
 
 // HarnessC16PrevNext: one or two anchors whose href is a head from the menu of
 // URL kinds followed by an arbitrary tail; both directions of the prev/next
@@ -77,8 +77,8 @@ func HarnessC16PrevNext() {
 	head := c16Heads[vx.Choose("head", vx.Param("heads", len(c16Heads)))]
 	tail := vx.NondetStringIn("tail", vx.Param("tail", 3), "a/3?=.")
 	href := head + tail
-	text := c16Texts[vx.Choose("text", len(c16Texts))]
-	cls := []string{"", "next", "pagination prev"}[vx.Choose("class", 3)]
+	text := c16Texts[vx.Choose("text", vx.Param("texts", len(c16Texts)))]
+	cls := []string{"", "pagination prev", "next"}[vx.Choose("class", vx.Param("classes", 3))]
 	second := ""
 	href2 := ""
 	if vx.Choose("second", 2) == 1 {
